@@ -364,7 +364,7 @@ def run_channel(res, n, d, fc, sc, calls, nq, stats, label):
     rng = res.rng
     top = common.scratch_dir()
     nf = common.number_form
-    w = digital_rf.DigitalMetadataWriter(top, nf(rng, sc), nf(rng, fc), nf(rng, n), nf(rng, d), PREFIX)
+    w = digital_rf.DigitalMetadataWriter(common.path_form(top), nf(rng, sc), nf(rng, fc), nf(rng, n), nf(rng, d), PREFIX)
     spec, sstat = spec_of(calls)
     cfgi = {"n": n, "d": d, "fc": fc, "sc": sc, "calls": calls}
     expv, istat = {}, []
@@ -411,7 +411,7 @@ def run_channel(res, n, d, fc, sc, calls, nq, stats, label):
                       "on-disk groups differ from the accepted writes / exact placement",
                       dict(cfgi, query=["tree", bad[:5]]), {k: exp_where.get(k) for k in bad[:5]},
                       {k: where.get(k) for k in bad[:5]})
-    rd = digital_rf.DigitalMetadataReader(top)
+    rd = digital_rf.DigitalMetadataReader(common.path_form(top))
     lacks_opt = {k for k, t in spec.items() if "opt" not in expv[t]}
     # every file older than the cadence and writable: only 'the file opens' keeps the reader from deleting it
     import time
@@ -600,7 +600,7 @@ def replay(res, rp):
     n, d, fc, sc, calls = i["n"], i["d"], i["fc"], i["sc"], i["calls"]
     top = common.scratch_dir()
     nf = common.number_form
-    w = digital_rf.DigitalMetadataWriter(top, nf(rng, sc), nf(rng, fc), nf(rng, n), nf(rng, d), PREFIX)
+    w = digital_rf.DigitalMetadataWriter(common.path_form(top), nf(rng, sc), nf(rng, fc), nf(rng, n), nf(rng, d), PREFIX)
     spec, sstat = spec_of(calls)
     expv = {}
     print("config n=%d d=%d file_cadence=%d subdir_cadence=%d" % (n, d, fc, sc))
@@ -616,7 +616,7 @@ def replay(res, rp):
                                                           "ok" if ok_spec else "IOError"))
         bad |= (ok != ok_spec)
         expv.update({t: ev[t] for k, t in zip(c["samples"], c["tags"]) if spec.get(k) == t})
-    rd = digital_rf.DigitalMetadataReader(top)
+    rd = digital_rf.DigitalMetadataReader(common.path_form(top))
     q = i.get("query")
     if q and isinstance(q[0], int):
         q = (q[0], q[1], q[2], q[3])
